@@ -13,7 +13,7 @@ import itertools
 
 from hypothesis import strategies as st
 
-from vlib.runner import Outcome, sut_raised
+from vlib.runner import Outcome, sut_raised, digest
 
 ID = "C01"
 RULE = ("Hypothesis op lists (<=60 quick / <=150 thorough) over a pool of <=24/48 SimEvents (plain and user-defined subclasses) with times "
@@ -72,11 +72,17 @@ def strategy(tier):
     k = st.integers(0, 999)
     def mk(t):
         w, kk = t
-        for name, upto in (("add", 30), ("remove", 50), ("remove_any", 55), ("pop", 80), ("peek", 85),
+        for name, upto in (("add", 30), ("remove", 42), ("remove_recent", 46), ("resched", 50), ("remove_any", 55), ("pop", 80), ("peek", 85),
                            ("contains", 92), ("size", 95), ("empty", 98), ("clear", 100)):
             if w < upto:
                 break
-        return [name, kk] if name in ("add", "remove", "remove_any", "contains") else [name]
+        return [name, kk] if name in ("add", "remove", "remove_recent", "resched", "remove_any", "contains") else [name]
+
+    def expand(o):
+        # "resched": the usual life of a timeout - cancel a recently scheduled event, schedule two others
+        if o[0] == "resched":
+            return [["remove_recent", o[1]], ["add", o[1] // 4], ["add", o[1] // 16]]
+        return [o]
     op = st.tuples(st.integers(0, 99), k).map(mk)
 
     @st.composite
@@ -90,7 +96,7 @@ def strategy(tier):
         warm = draw(st.integers(0, min(len(pool), 12)))
         head = [["add", draw(k)] for _ in range(warm)]
         ops = draw(st.lists(op, min_size=draw(st.sampled_from([1, 8, 16])), max_size=maxops))
-        return {"ttype": ttype, "pool": pool, "ops": head + ops}
+        return {"ttype": ttype, "pool": pool, "ops": head + [x for o in ops for x in expand(o)]}
 
     return case()
 
@@ -167,12 +173,22 @@ def _run_case(case, out):
     # reference key, independent of SimEvent's own comparison code
     refkey = [(_key_time(e.time), -case["pool"][i][1], i) for i, e in enumerate(events)]
     # (creation order i is the documented last tie-breaker, whatever the class of the event)
-    ids = [e.id for e in events]
-    if any(ids[i] >= ids[i + 1] for i in range(n - 1)):
-        out.fail("id-not-increasing", ids)
+    # In half of the cases the ids and the comparison operators are looked at only after the history: what the
+    # list does with events must not depend on whether anybody compared them or read their id before.
+    look_first = digest(case)[0] % 2 == 0
+    n0 = n
 
-    # -- comparison operators: strict total order agreeing with the reference key
-    _check_comparisons(out, events, refkey)
+    def look():
+        ids = [e.id for e in events[:n0]]
+        if any(ids[i] >= ids[i + 1] for i in range(n0 - 1)):
+            out.fail("id-not-increasing", ids)
+        # -- comparison operators: strict total order agreeing with the reference key
+        _check_comparisons(out, events[:n0], refkey[:n0])
+
+    if look_first:
+        look()
+    else:
+        out.label("ids-and-comparisons-after-the-history")
 
     el = EventListHeap()
     pending = []            # indices in insertion order (the model: a set + order info)
@@ -180,6 +196,7 @@ def _run_case(case, out):
     concrete = []
     interior_removed = False
     adds_after = pops_after = 0
+    max_probed = 0
 
     def model_sorted():
         return sorted(pending, key=lambda i: refkey[i])
@@ -199,9 +216,12 @@ def _run_case(case, out):
             mutating = True
             if interior_removed:
                 adds_after += 1
-        elif name in ("remove", "remove_any"):
+        elif name in ("remove", "remove_recent", "remove_any"):
             if name == "remove" and pending:
                 i = pending[op[1] % len(pending)]
+            elif name == "remove_recent" and pending:
+                # cancelling one of the events scheduled most recently (they sit near the end of the storage)
+                i = pending[-1 - (op[1] % min(4, len(pending)))]
             else:
                 i = op[1] % n
             was = i in pending
@@ -304,29 +324,47 @@ def _run_case(case, out):
                 if el.contains(events[i]) is not (i in pset):
                     out.fail("contains", {"op": opi, "event": i})
                     break
-            # drain a copy obtained by replaying the history on a fresh list
-            cp = EventListHeap()
-            for h in history:
-                if h[0] == "add":
-                    cp.add(events[h[1]])
-                elif h[0] == "remove":
-                    cp.remove(events[h[1]])
-                elif h[0] == "pop":
-                    cp.pop_first()
-                else:
-                    cp.clear()
-            drained = []
-            while True:
-                e = cp.pop_first()
-                if e is None:
+            # drain a copy obtained by replaying the history on a fresh list; and a second copy on which up to two
+            # further events are scheduled first (what the list hands out after a removal must not depend on
+            # whether anything is added before the next pop)
+            free = [i for i in range(n) if i not in pset]
+            for extra in ([], free[:2]) if concrete[-1][0] == "remove" and free else ([],):
+                cp = EventListHeap()
+                for h in history:
+                    if h[0] == "add":
+                        cp.add(events[h[1]])
+                    elif h[0] == "remove":
+                        cp.remove(events[h[1]])
+                    elif h[0] == "pop":
+                        cp.pop_first()
+                    else:
+                        cp.clear()
+                for i in extra:
+                    cp.add(events[i])
+                want_d = sorted(pending + extra, key=lambda i: refkey[i]) if extra else srt
+                drained = []
+                while True:
+                    e = cp.pop_first()
+                    if e is None:
+                        break
+                    drained.append(_idx(events, e))
+                    if len(drained) > n + 2:
+                        break
+                if drained != want_d:
+                    out.fail("drain-order", {"op": opi, "after": concrete[-1], "then_added": extra,
+                                             "want": want_d, "got": drained})
                     break
-                drained.append(_idx(events, e))
-                if len(drained) > n + 2:
-                    break
-            if drained != srt:
-                out.fail("drain-order", {"op": opi, "after": concrete[-1], "want": srt, "got": drained})
+        # "removing an event from ANY position": on copies of the list as it stands now, every pending event in
+        # turn is removed, two other events are scheduled, and the copy is drained
+        if mutating and len(pending) > max_probed and len(pending) >= 5 and not out.disc:
+            max_probed = len(pending)
+            _remove_each_position(out, EventListHeap, events, history, pending, refkey, n, opi)
         if out.disc:
             break
+    if not look_first and not out.disc:
+        look()
+    if not out.disc and len(pending) >= 3:
+        _remove_each_position(out, EventListHeap, events, history, pending, refkey, n, "end")
 
     if interior_removed and adds_after >= 1 and pops_after >= 2:
         out.nontrivial = True
@@ -337,6 +375,39 @@ def _run_case(case, out):
         out.label("time-tie")
     out.info = {"concrete_ops": len(concrete)}
     return out
+
+
+def _remove_each_position(out, EventListHeap, events, history, pending, refkey, n, where):
+    pset = set(pending)
+    free = [i for i in range(n) if i not in pset][:2]
+    for victim in pending:
+        cp = EventListHeap()
+        for h in history:
+            if h[0] == "add":
+                cp.add(events[h[1]])
+            elif h[0] == "remove":
+                cp.remove(events[h[1]])
+            elif h[0] == "pop":
+                cp.pop_first()
+            else:
+                cp.clear()
+        if cp.remove(events[victim]) is not True:
+            out.fail("remove-return", {"op": where, "event": victim, "want": True})
+            return
+        for i in free:
+            cp.add(events[i])
+        want = sorted([i for i in pending if i != victim] + free, key=lambda i: refkey[i])
+        drained = []
+        while len(drained) <= n + 2:
+            e = cp.pop_first()
+            if e is None:
+                break
+            drained.append(_idx(events, e))
+        if drained != want:
+            out.fail("drain-order", {"op": where, "after": ["remove", victim], "then_added": free,
+                                     "want": want, "got": drained})
+            return
+    out.label("every-position-removed-on-copies")
 
 
 def _idx(events, e):
